@@ -63,7 +63,8 @@ pub fn key_eq(a: &OrderKey, b: &OrderKey) -> bool {
 /// order is (or can still get) on the book
 pub fn entry_eq(a: &OrderEntry, b: &OrderEntry) -> bool {
     order_eq(&a.order, &b.order)
-        && (!(a.order.status == Status::Active || a.order.status == Status::New) || key_eq(&a.key, &b.key))
+        && (!(a.order.status == Status::Active || a.order.status == Status::New) || (is_bid(a.key.0) == is_bid(b.key.0) && a.key.1 == b.key.1))
+        && (a.order.status != Status::New || a.key.2 == b.key.2)
 }
 pub fn is_market(o: &Order) -> bool {
     if is_bid(o.side) {
@@ -107,6 +108,9 @@ impl<const L: usize> OrderBook<L> {
     pub fn verif_n_orders(&self) -> usize {
         self.orders.len()
     }
+    pub fn verif_set_trade_vol(&mut self, v: Vol) {
+        self.trade_vol = v;
+    }
     pub fn verif_tick(&self) -> Price {
         self.tick_size
     }
@@ -146,7 +150,8 @@ pub fn old_trades_unchanged<const L: usize>(b: &OrderBook<L>, ntr0: usize, old: 
 pub struct GenCfg {
     /// tick size symbolic in 1..=10 (else 1)
     pub sym_tick: bool,
-    /// clock discipline: active orders have pairwise distinct (side, price, queue time)
+    /// representation invariant on queue times: resting orders carry pairwise distinct ones (the
+    /// book hands them out strictly increasing)
     pub discipline: bool,
     /// trading flag: None = symbolic
     pub trading: Option<bool>,
@@ -250,7 +255,8 @@ pub fn gen_entry(i: usize, t: Nanos, tick: Price, wide: bool, shape: u8) -> Orde
             key_price = pk;
         }
         Status::Active => {
-            assume(!market && vol >= 1 && arr_time <= key_time && key_time <= t);
+            // queue time: stamped at (or, after a tie, just after) the time the order was queued
+            assume(!market && vol >= 1 && arr_time <= key_time && key_time < Nanos::MAX - 8);
             end_time = Nanos::MAX;
             key_price = pk;
         }
@@ -305,7 +311,8 @@ pub fn gen_plain<const N: usize>(m: usize, cfg: GenCfg) -> Plain<N> {
                 assume(e[i].order.arr_time <= e[j].order.arr_time);
             }
             if cfg.discipline && active(&e[i]) && active(&e[j]) {
-                assume(!key_eq(&e[i].key, &e[j].key));
+                // the book hands out strictly increasing queue times
+                assume(e[i].key.2 != e[j].key.2);
             }
             j += 1;
         }
@@ -461,6 +468,20 @@ pub fn ref_create<const N: usize>(r: &mut Plain<N>, bid: bool, vol: Vol, trader:
     Some(id)
 }
 
+/// the queue time the next queued order gets: the current time, or the first free one after every
+/// resting order's (ties: the clock was not advanced) - strictly after everything already queued
+pub fn ref_next_queue_time<const N: usize>(r: &Plain<N>) -> Nanos {
+    let mut q = r.t;
+    let mut j = 0;
+    while j < N {
+        if j < r.n && active(&r.e[j]) && r.e[j].key.2 >= q {
+            q = r.e[j].key.2 + 1;
+        }
+        j += 1;
+    }
+    q
+}
+
 pub fn ref_place<const N: usize>(r: &mut Plain<N>, a: usize) {
     let mut e = r.e[a];
     if e.order.status != Status::New {
@@ -483,7 +504,7 @@ pub fn ref_place<const N: usize>(r: &mut Plain<N>, a: usize) {
             e.order.status = Status::Cancelled;
             e.order.end_time = r.t;
         } else {
-            e.key = (e.order.side, price_key(is_bid(e.order.side), e.order.price), r.t);
+            e.key = (e.order.side, price_key(is_bid(e.order.side), e.order.price), ref_next_queue_time(r));
             r.seq[a] = r.next_seq;
             r.next_seq += 1;
         }
@@ -526,7 +547,7 @@ pub fn ref_modify<const N: usize>(r: &mut Plain<N>, a: usize, np: Option<Price>,
         ref_match(r, &mut e);
     }
     if e.order.status != Status::Filled {
-        e.key = (e.order.side, price_key(is_bid(e.order.side), p), r.t);
+        e.key = (e.order.side, price_key(is_bid(e.order.side), p), ref_next_queue_time(r));
         r.seq[a] = r.next_seq;
         r.next_seq += 1;
     }
@@ -703,6 +724,19 @@ pub fn table_matches<const N: usize, const L: usize>(b: &OrderBook<L>, r: &Plain
         i += 1;
     }
     ok &= b.t == r.t && b.trading == r.trading && b.tick_size == r.tick;
+    // queue order: the resting orders are queued in the same relative order as in the reference
+    // (queue times are compared through the order they induce, not as absolute numbers)
+    let mut i = 0;
+    while i < N {
+        let mut j = 0;
+        while j < N {
+            if i < r.n && j < r.n && i < b.orders.len() && j < b.orders.len() && i != j && active(&r.e[i]) && active(&r.e[j]) {
+                ok &= (b.orders[i].key.2 < b.orders[j].key.2) == (r.e[i].key.2 < r.e[j].key.2);
+            }
+            j += 1;
+        }
+        i += 1;
+    }
     ok
 }
 
@@ -788,6 +822,8 @@ pub const G_LIFE: u32 = 16; // C04
 pub const G_GRID: u32 = 32; // C12
 pub const G_UNCROSSED: u32 = 64; // C02 second sentence (pre-state assumed uncrossed & trading)
 pub const G_NOTRADE: u32 = 128; // C13: nothing trades while disabled
+pub const G_CONSIST: u32 = 256; // C05: every active order is in its side queue under its own key, and nothing else is
+pub const G_TIE: u32 = 512; // C05 input class: the incoming order ties (side, price, timestamp) with a resting one
 
 /// what the operation was, for the ledger / lifecycle audits
 #[derive(Clone, Copy)]
@@ -818,6 +854,9 @@ pub fn post_checks<const N: usize, const L: usize>(b: &OrderBook<L>, pre: &Plain
     }
     if mask & G_VIEWS != 0 {
         vcheck!(c02_views_ok::<N, L>(b), "VIEWS.equal_recomputation_from_orders");
+    }
+    if mask & G_CONSIST != 0 {
+        vcheck!(index_consistent::<N, L>(b, &post), "INDEX.every_active_order_queued_under_its_own_key_and_nothing_else");
     }
     if mask & G_UNCROSSED != 0 {
         vcheck!(uncrossed(&post), "VIEWS.book_not_crossed");
@@ -1034,16 +1073,7 @@ pub fn assume_valid_incoming<const N: usize>(p: &Plain<N>, bid: bool, vol: Vol, 
     let (bv, av) = side_vols(p);
     assume((if bid { bv } else { av }) + vol as u64 <= u32::MAX as u64);
     assume(p.trade_vol as u64 + vol as u64 <= u32::MAX as u64);
-    if let (Some(px), true) = (price, discipline) {
-        // clock discipline for the incoming placement (its complement is C05's input class)
-        let mut j = 0;
-        while j < N {
-            if j < p.n && active(&p.e[j]) && is_bid(p.e[j].order.side) == bid && p.e[j].order.price == px {
-                assume(p.e[j].key.2 != p.t);
-            }
-            j += 1;
-        }
-    }
+    let _ = (price, discipline);
 }
 
 // ------------------------------------------------------------------------------------------
@@ -1059,7 +1089,20 @@ pub fn step_place_new<const N: usize, const L: usize>(m: usize, cfg: GenCfg, mas
     let vol = any_u32();
     let trader = any_u32();
     let price = if market { None } else { Some(g_price(cfg.wide, p.tick)) };
-    assume_valid_incoming(&p, bid, vol, price, cfg.discipline);
+    assume_valid_incoming(&p, bid, vol, price, cfg.discipline && mask & G_TIE == 0);
+    if mask & G_TIE != 0 {
+        // C05's input class: some resting order on the same side at the same price was queued at
+        // the current timestamp (the clock was not advanced in between)
+        let mut tie = false;
+        let mut j = 0;
+        while j < N {
+            if j < p.n && active(&p.e[j]) && is_bid(p.e[j].order.side) == bid && Some(p.e[j].order.price) == price && p.e[j].order.arr_time == p.t {
+                tie = true;
+            }
+            j += 1;
+        }
+        assume(tie);
+    }
     let (mut book, old) = build_with_log::<N, L>(&p, cfg.ntrades);
     let mut r = p;
 
@@ -1083,6 +1126,54 @@ pub fn step_place_new<const N: usize, const L: usize>(m: usize, cfg: GenCfg, mas
         vcover!(r.e[a].order.status == Status::Rejected || active(&r.e[a]), "cover.placed_while_disabled");
     }
     core::mem::forget(book);
+}
+
+/// C12: create_order with an ARBITRARY price on an arbitrary table, tick concrete per harness.
+/// Ok <=> market or price % tick == 0; a rejected creation consumes no id and changes nothing.
+pub fn step_create<const N: usize, const L: usize>(m: usize, cfg: GenCfg) {
+    let p: Plain<N> = gen_plain::<N>(m, cfg);
+    let (mut book, old) = build_with_log::<N, L>(&p, cfg.ntrades);
+    let twin = build::<N, L>(&p, 0);
+    let bid = any_bool();
+    let vol = any_u32();
+    let trader = any_u32();
+    let price = if any_bool() { Some(any_u32()) } else { None };
+    let on_grid = match price {
+        Some(px) => px % p.tick == 0,
+        None => true,
+    };
+    let got = book.create_order(mk_side(bid), vol, trader, price);
+    match got {
+        Ok(id) => {
+            vcheck!(on_grid, "GRID.off_grid_creation_is_rejected");
+            vcheck!(id == m && book.orders.len() == m + 1, "LIFE.create_returns_next_dense_id");
+            if book.orders.len() == m + 1 {
+                let o = &book.orders[m].order;
+                let want = match price {
+                    Some(px) => px,
+                    None => if bid { Price::MAX } else { 0 },
+                };
+                vcheck!(o.status == Status::New && is_bid(o.side) == bid && o.vol == vol && o.start_vol == vol && o.price == want && o.trader_id == trader && o.order_id == m && o.arr_time == p.t && o.end_time == Nanos::MAX,
+                    "GRID.created_order_is_new_with_the_submitted_fields");
+                vcheck!(is_market(o) || o.price % p.tick == 0, "GRID.every_limit_price_on_grid");
+            }
+        }
+        Err(e) => {
+            vcheck!(!on_grid, "GRID.on_grid_creation_is_accepted");
+            vcheck!(book.orders.len() == m, "GRID.rejected_creation_consumes_no_id");
+            let carries = match (e, price) {
+                (OrderError::PriceError { price: ep, tick_size: et }, Some(px)) => ep == px && et == p.tick,
+                _ => false,
+            };
+            vcheck!(carries, "GRID.error_reports_price_and_tick");
+        }
+    }
+    vcheck!(snapshot_equal_prefix::<N, L>(&book, &p, cfg.ntrades, &old), "GRID.creation_changes_no_view_and_no_existing_record");
+    vcheck!(sides_same(&book, &twin), "GRID.creation_does_not_touch_the_side_indexes");
+    vcover!(price.is_some() && on_grid && price != Some(0), "cover.limit_order_created");
+    vcover!(!on_grid, "cover.creation_rejected");
+    core::mem::forget(book);
+    core::mem::forget(twin);
 }
 
 /// place_order(a) on an arbitrary existing entry (any status: includes the double-place no-op)
@@ -1166,20 +1257,11 @@ pub fn step_modify<const N: usize, const L: usize>(m: usize, cfg: GenCfg, mask: 
     let reduces = active(&e) && np.is_none() && nv.is_some() && new_v < e.order.vol;
     let requeues = active(&e) && !reduces && (np.is_some() || nv.is_some());
     if requeues {
-        // valid histories: resting volume bound, and clock discipline for the re-queued order
+        // valid histories: resting volume bound
         let (bv, av) = side_vols(&p);
         let bid = is_bid(e.order.side);
         assume((if bid { bv } else { av }) - e.order.vol as u64 + new_v as u64 <= u32::MAX as u64);
         assume(p.trade_vol as u64 + new_v as u64 <= u32::MAX as u64);
-        if cfg.discipline {
-            let mut j = 0;
-            while j < N {
-                if j < p.n && j != a && active(&p.e[j]) && is_bid(p.e[j].order.side) == bid && p.e[j].order.price == new_p {
-                    assume(p.e[j].key.2 != p.t);
-                }
-                j += 1;
-            }
-        }
     }
     let (mut book, old) = build_with_log::<N, L>(&p, cfg.ntrades);
     let mut r = p;
@@ -1196,7 +1278,15 @@ pub fn step_modify<const N: usize, const L: usize>(m: usize, cfg: GenCfg, mask: 
         let z = &book.orders[a].order;
         vcheck!(z.order_id == e.order.order_id && is_bid(z.side) == is_bid(e.order.side) && z.trader_id == e.order.trader_id && z.arr_time == e.order.arr_time && z.start_vol == e.order.start_vol, "MODIFY.keeps_id_side_trader_arrival_start_vol");
         if active(&book.orders[a]) {
-            vcheck!(book.orders[a].key.2 == p.t, "MODIFY.requeued_at_current_time");
+            let mut behind = true;
+            let mut j = 0;
+            while j < N {
+                if j < book.orders.len() && j != a && active(&book.orders[j]) && is_bid(book.orders[j].order.side) == is_bid(z.side) && book.orders[j].order.price == z.price {
+                    behind &= book.orders[j].key.2 < book.orders[a].key.2;
+                }
+                j += 1;
+            }
+            vcheck!(behind, "MODIFY.requeued_behind_every_order_already_at_that_price");
         }
     }
     if mask & (G_LIFE | G_REF) != 0 && (!active(&e) || (np.is_none() && nv.is_none())) {
@@ -1403,11 +1493,39 @@ vharnesses! {
     #[cfg_attr(kani, kani::unwind(4))]
     fn c13_place_ask_limit_enabled_m2() { step_place_new::<3, 2>(2, ON, G_REF, 1) }
 
-    // ---- C12: grid
+    // ---- C12: grid (ticks enumerated: a remainder by a symbolic tick is out of CBMC's reach)
     #[cfg_attr(kani, kani::unwind(4))]
-    fn c12_grid_place_off_m2() { step_place_new::<3, 2>(2, GenCfg { sym_tick: true, ..OFF }, G_GRID, 4) }
+    fn c12_create_tick1_m2() { step_create::<3, 2>(2, GenCfg { tick: 1, ..LOG1 }) }
     #[cfg_attr(kani, kani::unwind(4))]
-    fn c12_grid_modify_ongrid_m2() { step_modify::<3, 2>(2, GenCfg { sym_tick: true, ..OFF }, G_GRID, 0, false) }
+    fn c12_create_tick2_m2() { step_create::<3, 2>(2, GenCfg { tick: 2, ..LOG1 }) }
     #[cfg_attr(kani, kani::unwind(4))]
-    fn c12_modify_offgrid_price_m2() { step_modify::<3, 2>(2, GenCfg { sym_tick: true, ..OFF }, G_GRID, 2, true) }
+    fn c12_create_tick3_m2() { step_create::<3, 2>(2, GenCfg { tick: 3, ..LOG1 }) }
+    #[cfg_attr(kani, kani::unwind(4))]
+    fn c12_create_tick4_m2() { step_create::<3, 2>(2, GenCfg { tick: 4, ..LOG1 }) }
+    #[cfg_attr(kani, kani::unwind(4))]
+    fn c12_create_tick5_m2() { step_create::<3, 2>(2, GenCfg { tick: 5, ..LOG1 }) }
+    #[cfg_attr(kani, kani::unwind(4))]
+    fn c12_create_tick6_m2() { step_create::<3, 2>(2, GenCfg { tick: 6, ..LOG1 }) }
+    #[cfg_attr(kani, kani::unwind(4))]
+    fn c12_create_tick7_m2() { step_create::<3, 2>(2, GenCfg { tick: 7, ..LOG1 }) }
+    #[cfg_attr(kani, kani::unwind(4))]
+    fn c12_create_tick8_m2() { step_create::<3, 2>(2, GenCfg { tick: 8, ..LOG1 }) }
+    #[cfg_attr(kani, kani::unwind(4))]
+    fn c12_create_tick9_m2() { step_create::<3, 2>(2, GenCfg { tick: 9, ..LOG1 }) }
+    #[cfg_attr(kani, kani::unwind(4))]
+    fn c12_create_tick10_m2() { step_create::<3, 2>(2, GenCfg { tick: 10, ..LOG1 }) }
+    // the grid invariant is preserved by placements and by modifications to on-grid prices
+    #[cfg_attr(kani, kani::unwind(4))]
+    fn c12_grid_place_tick3_off_m2() { step_place_new::<3, 2>(2, GenCfg { tick: 3, ..OFF }, G_GRID | G_VIEWS, 4) }
+    #[cfg_attr(kani, kani::unwind(4))]
+    fn c12_grid_modify_ongrid_tick3_m2() { step_modify::<3, 2>(2, GenCfg { tick: 3, ..CFG }, G_GRID | G_VIEWS, 0, false) }
+    // modify_order with an ARBITRARY new price (isolates the finding C12.modify_offgrid_price)
+    #[cfg_attr(kani, kani::unwind(4))]
+    fn c12_modify_any_price_tick3_m2() { step_modify::<3, 2>(2, GenCfg { tick: 3, ..OFF }, G_GRID, 2, true) }
+
+    // ---- C05: ties (same side, price, timestamp)
+    #[cfg_attr(kani, kani::unwind(4))]
+    fn c05_place_bid_limit_tie_m2() { step_place_new::<3, 2>(2, CFG, G_TIE | G_CONSIST | G_VIEWS, 0) }
+    #[cfg_attr(kani, kani::unwind(4))]
+    fn c05_place_ask_limit_tie_m2() { step_place_new::<3, 2>(2, CFG, G_TIE | G_CONSIST | G_VIEWS, 1) }
 }
